@@ -200,7 +200,7 @@ func parseKV(s string) map[string]string {
 }
 
 func writeBoundedReplay(prop, harness string, f boundedFailure) string {
-	dir := filepath.Join(verifDir, "replays", prop)
+	dir := filepath.Join(outDir(), "replays", prop)
 	os.MkdirAll(dir, 0o755)
 	h := fmt.Sprintf("%x", hashString(f.Input))
 	base := filepath.Join(dir, sanitize(harness)+"-"+h)
